@@ -2,10 +2,19 @@
 //! that positions, thresholds of `split_by` predicates etc. are chosen inside the property's domain.
 use crate::common::*;
 
+/// the largest value of rlib's priority type (`u32`, checked by `extract` in checks/C03.py)
+const PMAX: u64 = u32::MAX as u64;
+/// the ends of the priority range and their neighbours (seeded C03_m5: a sentinel `Priority::MAX` for an empty side)
+const EXTREME: [u64; 4] = [0, 1, PMAX - 1, PMAX];
+/// number of priority policies of the controlled stream (`Sim::prio`)
+const POLICIES: u64 = 10;
+
 #[derive(Clone, Copy, PartialEq)]
 pub enum Kind {
     Sum,
     Aff,
+    /// the item that relies on the trait's default `update`/`push` (no size, no tags, no aggregate)
+    Key,
 }
 
 impl Kind {
@@ -13,6 +22,7 @@ impl Kind {
         match self {
             Kind::Sum => "sum",
             Kind::Aff => "aff",
+            Kind::Key => "key",
         }
     }
 }
@@ -36,11 +46,13 @@ struct Sim<'a> {
     splitby_interior: usize,
     splitby_interior_big: usize,
     splitby_trivial: usize,
+    /// operations that re-used an item the API returned (move / take / dup of a non-empty treap)
+    reuses: usize,
 }
 
 impl<'a> Sim<'a> {
     fn new(kind: Kind, own: bool, pol: u64, rng: &'a mut SplitMix64) -> Self {
-        Sim { kind, own, pol, ctr: 0, created: 0, seqs: Vec::new(), ops: Vec::new(), rng, tags: 0, restructs_after_tag: 0, max_size: 0, splitby_interior: 0, splitby_interior_big: 0, splitby_trivial: 0 }
+        Sim { kind, own, pol, ctr: 0, created: 0, seqs: Vec::new(), ops: Vec::new(), rng, tags: 0, restructs_after_tag: 0, max_size: 0, splitby_interior: 0, splitby_interior_big: 0, splitby_trivial: 0, reuses: 0 }
     }
     fn prio(&mut self) -> String {
         if self.own {
@@ -55,7 +67,19 @@ impl<'a> Sim<'a> {
             4 => self.rng.below(8),
             5 => 7,
             // pairwise distinct, random order
-            _ => (self.rng.below(1 << 20) << 10) + self.ctr,
+            6 => (self.rng.below(1 << 20) << 10) + self.ctr,
+            // the two ends of the priority type only: heavy ties at 0 and at u32::MAX
+            7 => *self.rng.pick(&[0, PMAX]),
+            // the ends and their neighbours
+            8 => *self.rng.pick(&EXTREME),
+            // 32-bit random with a share of extreme values mixed in
+            _ => {
+                if self.rng.chance(1, 4) {
+                    *self.rng.pick(&EXTREME)
+                } else {
+                    self.rng.next_u64() & 0xFFFF_FFFF
+                }
+            }
         };
         p.to_string()
     }
@@ -64,7 +88,7 @@ impl<'a> Sim<'a> {
     }
     fn tag(&mut self) -> Tag {
         match self.kind {
-            Kind::Sum => Tag(1, self.rng.range_i64(-1000, 1000)),
+            Kind::Sum | Kind::Key => Tag(1, self.rng.range_i64(-1000, 1000)),
             Kind::Aff => {
                 let a = match self.rng.below(4) {
                     0 => 0,
@@ -78,7 +102,7 @@ impl<'a> Sim<'a> {
     /// a tag that keeps a monotone sequence monotone (the direction may flip)
     fn mono_tag(&mut self) -> Tag {
         match self.kind {
-            Kind::Sum => Tag(1, self.rng.range_i64(-1000, 1000)),
+            Kind::Sum | Kind::Key => Tag(1, self.rng.range_i64(-1000, 1000)),
             Kind::Aff => {
                 let a = match self.rng.below(10) {
                     0 => 0,
@@ -110,8 +134,9 @@ impl<'a> Sim<'a> {
         };
         self.p_splitby(i, rel, c);
         let n = self.seqs.len();
-        self.p_obs("agg", i);
-        self.p_obs("agg", n - 1);
+        let what = if self.kind == Kind::Key { "size" } else { "agg" };
+        self.p_obs(what, i);
+        self.p_obs(what, n - 1);
         if self.rng.chance(1, 2) {
             self.p_obs("last", i);
             self.p_obs("first", n - 1);
@@ -187,7 +212,7 @@ impl<'a> Sim<'a> {
     }
     fn p_tag(&mut self, i: usize, t: Tag) {
         match self.kind {
-            Kind::Sum => self.ops.push(format!("tag {} {}", i, t.1)),
+            Kind::Sum | Kind::Key => self.ops.push(format!("tag {} {}", i, t.1)),
             Kind::Aff => self.ops.push(format!("tag {} {} {}", i, t.0, t.1)),
         }
         for e in self.seqs[i].iter_mut() {
@@ -196,6 +221,43 @@ impl<'a> Sim<'a> {
         if !self.seqs[i].is_empty() {
             self.tags += 1;
         }
+    }
+    /// `let it = ts[i].remove_at(k); ts[j].insert_at(pos, it)`: the returned item itself is re-used
+    fn p_move(&mut self, i: usize, k: usize, j: usize, pos: usize) {
+        let p = self.prio();
+        self.ops.push(format!("move {} {} {} {} {}", i, k, j, pos, p));
+        if k < self.seqs[i].len() {
+            let x = self.seqs[i].remove(k);
+            let at = pos.min(self.seqs[j].len());
+            self.seqs[j].insert(at, x);
+        }
+        self.reuses += 1;
+        self.restruct();
+    }
+    /// `Treap::from_item(ts[i].remove_at(k))` becomes a new live treap
+    fn p_take(&mut self, i: usize, k: usize) {
+        let p = self.prio();
+        self.ops.push(format!("take {} {} {}", i, k, p));
+        if k < self.seqs[i].len() {
+            let x = self.seqs[i].remove(k);
+            self.seqs.push(vec![x]);
+        }
+        self.reuses += 1;
+        self.restruct();
+    }
+    /// clone of the only element (through first / last / collect) becomes a new live treap
+    fn p_dup(&mut self, i: usize, w: u64) {
+        let p = self.prio();
+        let w = ["first", "last", "collect"][(w % 3) as usize];
+        self.ops.push(format!("dup {} {} {}", i, w, p));
+        let c = if self.seqs[i].len() <= 1 { self.seqs[i].clone() } else { Vec::new() };
+        if !c.is_empty() {
+            self.reuses += 1;
+        }
+        self.seqs.push(c);
+    }
+    fn p_collect2(&mut self, i: usize, j: usize) {
+        self.ops.push(format!("collect2 {} {}", i, j));
     }
     fn p_obs(&mut self, what: &str, i: usize) {
         self.ops.push(format!("{} {}", what, i));
@@ -334,72 +396,200 @@ fn exhaustive(focus: &str, n_all: usize, n_perm: usize, emit: &mut dyn FnMut(Str
             for k in 0..=n {
                 for kind in [Kind::Sum, Kind::Aff] {
                     for variant in 0..3 {
-                        let mut s = Sim::new(kind, false, 0, rng);
-                        let vals: Vec<i64> = (0..n).map(|i| (i as i64 + 1) * 3 - 7).collect();
-                        let item = |s: &mut Sim, i: usize| {
-                            s.ops.push(format!("item {} {}", vals[i], ps[i]));
-                            s.seqs.push(vec![vals[i]]);
-                        };
-                        match variant {
-                            0 => {
-                                item(&mut s, 0);
-                                for i in 1..n {
-                                    item(&mut s, i);
-                                    s.p_merge(0, 1);
-                                }
-                            }
-                            1 => {
-                                item(&mut s, n - 1);
-                                for i in (0..n - 1).rev() {
-                                    item(&mut s, i);
-                                    s.p_merge(1, 0);
-                                }
-                            }
-                            _ => {
-                                // balanced: merge neighbours pairwise, round after round
-                                for i in 0..n {
-                                    item(&mut s, i);
-                                }
-                                while s.seqs.len() > 1 {
-                                    let mut i = 0;
-                                    while i + 1 < s.seqs.len() {
-                                        s.p_merge(i, i + 1);
-                                        i += 1;
-                                    }
-                                }
-                            }
-                        }
-                        // first tag never collapses the elements (a != 0), so positions stay visible
-                        let mut t1 = s.tag();
-                        if t1.0 == 0 {
-                            t1.0 = -1;
-                        }
-                        let (t2, t3) = (s.tag(), s.tag());
-                        s.p_tag(0, t1);
-                        s.p_splitat(0, k);
-                        s.p_tag(0, t2);
-                        for w in ["agg", "first", "last"] {
-                            s.p_obs(w, 0);
-                            s.p_obs(w, 1);
-                        }
-                        s.p_tag(1, t3);
-                        s.p_obs("collect", 1);
-                        s.p_merge(0, 1);
-                        s.p_obs("agg", 0);
-                        s.p_obs("collect", 0);
-                        if k < n {
-                            s.p_remove(0, k);
-                            s.p_obs("collect", 0);
-                            s.p_obs("agg", 0);
-                        }
-                        s.p_obs("size", 0);
-                        emit(s.line(focus, None));
+                        emit(exhaustive_case(focus, &ps, k, kind, variant, rng));
                         st.bump(&format!("exhaustive_n{}_{}_build{}", n, kind.name(), variant));
+                    }
+                }
+                if n <= 4 {
+                    for variant in 0..3 {
+                        emit(exhaustive_key_case(focus, &ps, k, variant, rng));
+                        st.bump(&format!("exhaustive_n{}_key_build{}", n, variant));
                     }
                 }
             }
         }
     }
+}
+
+/// (i') the same product with the priorities taken from the two ENDS of the priority type and their
+/// neighbours (`0, 1, u32::MAX-1, u32::MAX`): every assignment `[n] -> EXTREME`, so ties at 0 and at
+/// u32::MAX, with empty operands on either side of merge/split/remove (split points 0 and n).
+fn exhaustive_extreme(focus: &str, n_max: usize, emit: &mut dyn FnMut(String), st: &mut Stats, rng: &mut SplitMix64) {
+    for n in 1..=n_max {
+        for code in 0..4u64.pow(n as u32) {
+            let ps: Vec<u64> = (0..n).map(|i| EXTREME[((code >> (2 * i)) & 3) as usize]).collect();
+            for k in 0..=n {
+                for kind in [Kind::Sum, Kind::Aff] {
+                    for variant in 0..3 {
+                        emit(exhaustive_case(focus, &ps, k, kind, variant, rng));
+                        st.bump(&format!("exhaustive_extreme_priorities_n{}", n));
+                    }
+                }
+                if n <= 2 {
+                    for variant in 0..3 {
+                        emit(exhaustive_key_case(focus, &ps, k, variant, rng));
+                        st.bump(&format!("exhaustive_extreme_priorities_key_n{}", n));
+                    }
+                }
+            }
+        }
+    }
+}
+
+/// one history of the exhaustive scope: `n = ps.len()` nodes with the given priorities, built in one of three
+/// orders, tags before and after a split at `k`, observations, remove at `k`
+fn exhaustive_case(focus: &str, ps: &[u64], k: usize, kind: Kind, variant: usize, rng: &mut SplitMix64) -> String {
+    let n = ps.len();
+    let mut s = Sim::new(kind, false, 0, rng);
+    let vals: Vec<i64> = (0..n).map(|i| (i as i64 + 1) * 3 - 7).collect();
+    let item = |s: &mut Sim, i: usize| {
+        s.ops.push(format!("item {} {}", vals[i], ps[i]));
+        s.seqs.push(vec![vals[i]]);
+    };
+    match variant {
+        0 => {
+            item(&mut s, 0);
+            for i in 1..n {
+                item(&mut s, i);
+                s.p_merge(0, 1);
+            }
+        }
+        1 => {
+            item(&mut s, n - 1);
+            for i in (0..n - 1).rev() {
+                item(&mut s, i);
+                s.p_merge(1, 0);
+            }
+        }
+        _ => {
+            // balanced: merge neighbours pairwise, round after round
+            for i in 0..n {
+                item(&mut s, i);
+            }
+            while s.seqs.len() > 1 {
+                let mut i = 0;
+                while i + 1 < s.seqs.len() {
+                    s.p_merge(i, i + 1);
+                    i += 1;
+                }
+            }
+        }
+    }
+    // first tag never collapses the elements (a != 0), so positions stay visible
+    let mut t1 = s.tag();
+    if t1.0 == 0 {
+        t1.0 = -1;
+    }
+    let (t2, t3) = (s.tag(), s.tag());
+    s.p_tag(0, t1);
+    s.p_splitat(0, k);
+    s.p_tag(0, t2);
+    for w in ["agg", "first", "last"] {
+        s.p_obs(w, 0);
+        s.p_obs(w, 1);
+    }
+    s.p_tag(1, t3);
+    s.p_obs("collect", 1);
+    s.p_merge(0, 1);
+    s.p_obs("agg", 0);
+    s.p_obs("collect", 0);
+    if k < n {
+        s.p_remove(0, k);
+        s.p_obs("collect", 0);
+        s.p_obs("agg", 0);
+    }
+    s.p_obs("size", 0);
+    // re-use of returned items: move an element inside the treap (`remove_at` + `insert_at` of the item that came
+    // back; the new node's priority runs over the values of the scope), then take one out (`from_item`) and
+    // append it again
+    let len = s.seqs[0].len();
+    if len > 0 {
+        let from = k % len;
+        let to = (k + 1 + variant) % len;
+        s.ops.push(format!("move 0 {} 0 {} {}", from, to, ps[(k + variant) % n]));
+        let x = s.seqs[0].remove(from);
+        s.seqs[0].insert(to, x);
+        s.p_obs("collect", 0);
+        s.p_obs("agg", 0);
+        s.p_obs("size", 0);
+        let a = (k + variant) % len;
+        s.ops.push(format!("take 0 {} {}", a, ps[k % n]));
+        let x = s.seqs[0].remove(a);
+        s.seqs.push(vec![x]);
+        s.p_obs("agg", 1);
+        if variant == 1 {
+            s.p_merge(1, 0);
+        } else {
+            s.p_merge(0, 1);
+        }
+        s.p_obs("collect", 0);
+        s.p_obs("agg", 0);
+    }
+    s.line(focus, None)
+}
+
+/// the exhaustive scope for the item WITHOUT size, tags and aggregate (default `update`/`push`): the same
+/// builds, then `split_by` at every cut point of the (increasing) keys, every observation that exists for such
+/// an item, clone of a one-element part, `collect_into` of both parts into one vector, merge back
+fn exhaustive_key_case(focus: &str, ps: &[u64], k: usize, variant: usize, rng: &mut SplitMix64) -> String {
+    let n = ps.len();
+    let mut s = Sim::new(Kind::Key, false, 0, rng);
+    let vals: Vec<i64> = (0..n).map(|i| (i as i64 + 1) * 3 - 7).collect();
+    let item = |s: &mut Sim, i: usize| {
+        s.ops.push(format!("item {} {}", vals[i], ps[i]));
+        s.seqs.push(vec![vals[i]]);
+    };
+    match variant {
+        0 => {
+            item(&mut s, 0);
+            for i in 1..n {
+                item(&mut s, i);
+                s.p_merge(0, 1);
+            }
+        }
+        1 => {
+            item(&mut s, n - 1);
+            for i in (0..n - 1).rev() {
+                item(&mut s, i);
+                s.p_merge(1, 0);
+            }
+        }
+        _ => {
+            for i in 0..n {
+                item(&mut s, i);
+            }
+            while s.seqs.len() > 1 {
+                let mut i = 0;
+                while i + 1 < s.seqs.len() {
+                    s.p_merge(i, i + 1);
+                    i += 1;
+                }
+            }
+        }
+    }
+    s.p_obs("size", 0);
+    s.p_obs("collect", 0);
+    let c = if k < n { vals[k] } else { vals[n - 1] + 1 };
+    if variant == 1 {
+        s.p_splitby(0, "le", c - 1);
+    } else {
+        s.p_splitby(0, "lt", c);
+    }
+    for w in ["size", "first", "last"] {
+        s.p_obs(w, 0);
+        s.p_obs(w, 1);
+    }
+    s.p_dup(0, k as u64);
+    s.p_dup(1, (k + 1) as u64);
+    s.p_collect2(0, 1);
+    s.p_collect2(1, 0);
+    s.p_obs("collect", 1);
+    s.p_merge(0, 1);
+    s.p_obs("collect", 0);
+    s.p_obs("size", 0);
+    s.p_obs("first", 1);
+    s.p_obs("first", 2);
+    s.line(focus, None)
 }
 
 fn bucket(n: usize) -> &'static str {
@@ -417,7 +607,7 @@ fn bucket(n: usize) -> &'static str {
 /// (iii) random structured histories. `target` = number of nodes to grow to before the operation
 /// mix becomes unbiased (0 = small history); `steps` counts *composed* operations.
 fn random_history(focus: &str, kind: Kind, own: bool, target: usize, rng: &mut SplitMix64, st: &mut Stats) -> String {
-    let pol = if focus == "C16" && rng.chance(1, 2) { 6 } else { rng.below(7) };
+    let pol = if focus == "C16" && rng.chance(1, 2) { 6 } else { rng.below(POLICIES) };
     let pm = if own { Some(rng.below(6)) } else { None };
     let set_mode = rng.chance(1, 3);
     // a small separate stream outside the stated domain (positions past the end, non-monotone predicates)
@@ -448,7 +638,7 @@ fn random_history(focus: &str, kind: Kind, own: bool, target: usize, rng: &mut S
         let n = s.seqs[i].len();
         let can_create = s.created < max_items;
         let growing = s.total() < target && can_create;
-        let roll = if growing && s.rng.chance(7, 10) { 0 } else { s.rng.below(20) };
+        let roll = if growing && s.rng.chance(7, 10) { 0 } else { s.rng.below(25) };
         if set_mode {
             match roll {
                 0..=6 if can_create => {
@@ -488,6 +678,26 @@ fn random_history(focus: &str, kind: Kind, own: bool, target: usize, rng: &mut S
                 18 => {
                     s.p_obs("collect", i);
                     st.bump("op_collect");
+                }
+                20 if n > 0 && live < 6 => {
+                    // taking an element out keeps both treaps sorted
+                    let k = s.rng.below(n as u64) as usize;
+                    s.p_take(i, k);
+                    st.bump("op_take_from_item_of_removed");
+                }
+                21 if live < 6 => {
+                    let w = s.rng.below(3);
+                    let j = (0..live).find(|&j| s.seqs[j].len() == 1).unwrap_or(i);
+                    s.p_dup(j, w);
+                    st.bump("op_dup_clone");
+                }
+                22 if live >= 2 => {
+                    let mut j = s.rng.below(live as u64 - 1) as usize;
+                    if j >= i {
+                        j += 1;
+                    }
+                    s.p_collect2(i, j);
+                    st.bump("op_collect_into_two");
                 }
                 _ => {
                     s.p_obs("agg", i);
@@ -601,6 +811,47 @@ fn random_history(focus: &str, kind: Kind, own: bool, target: usize, rng: &mut S
                 s.p_new();
                 st.bump("op_new_empty");
             }
+            20 | 21 if n > 0 => {
+                // move an element: remove_at, then insert_at of the returned item — inside the same treap or
+                // into another one
+                let k = if ood && s.rng.chance(1, 4) {
+                    is_ood = true;
+                    n + s.rng.below(2) as usize
+                } else {
+                    s.rng.below(n as u64) as usize
+                };
+                let j = if live >= 2 && s.rng.chance(1, 3) { s.rng.below(live as u64) as usize } else { i };
+                let room = if i == j { n - 1 } else { s.seqs[j].len() };
+                if kind == Kind::Sum || room < 90 {
+                    let pos = if ood && s.rng.chance(1, 4) {
+                        is_ood = true;
+                        room + 1 + s.rng.below(2) as usize
+                    } else {
+                        s.rng.below(room as u64 + 1) as usize
+                    };
+                    s.p_move(i, k, j, pos);
+                    st.bump(if i == j { "op_move_within" } else { "op_move_between" });
+                }
+            }
+            22 if n > 0 && live < 5 => {
+                let k = s.rng.below(n as u64) as usize;
+                s.p_take(i, k);
+                st.bump("op_take_from_item_of_removed");
+            }
+            23 if live < 5 => {
+                let w = s.rng.below(3);
+                let j = (0..live).find(|&j| s.seqs[j].len() == 1).unwrap_or(i);
+                s.p_dup(j, w);
+                st.bump("op_dup_clone");
+            }
+            24 if live >= 2 => {
+                let mut j = s.rng.below(live as u64 - 1) as usize;
+                if j >= i {
+                    j += 1;
+                }
+                s.p_collect2(i, j);
+                st.bump("op_collect_into_two");
+            }
             _ => {}
         }
     }
@@ -615,6 +866,9 @@ fn random_history(focus: &str, kind: Kind, own: bool, target: usize, rng: &mut S
     if s.restructs_after_tag > 0 {
         st.bump("histories_with_restructuring_after_a_tag");
     }
+    if s.reuses > 0 {
+        st.bump("histories_reusing_a_returned_item");
+    }
     st.bump(&format!("histories_{}_{}", kind.name(), if own { "own" } else { "ctl" }));
     if set_mode {
         st.bump("histories_sorted_discipline");
@@ -628,6 +882,104 @@ fn random_history(focus: &str, kind: Kind, own: bool, target: usize, rng: &mut S
         st.bump(&format!("priority_policy_{}", pol));
     }
     s.line(focus, pm)
+}
+
+/// random histories for the item without size / tags / aggregate (`key`): rlib's `set` idiom (sorted insert and
+/// removal through `split_by`), arbitrary merges, monotone `split_by`, and every observation that exists for it
+fn key_history(focus: &str, own: bool, rng: &mut SplitMix64, st: &mut Stats) -> String {
+    let pol = if focus == "C16" && rng.chance(1, 2) { 6 } else { rng.below(POLICIES) };
+    let pm = if own { Some(rng.below(6)) } else { None };
+    let steps = 12 + rng.below(30) as usize;
+    let mut s = Sim::new(Kind::Key, own, pol, rng);
+    for _ in 0..steps {
+        let live = s.seqs.len();
+        if live == 0 {
+            let v = s.val();
+            s.p_item(v);
+            continue;
+        }
+        let i = s.rng.below(live as u64) as usize;
+        let n = s.seqs[i].len();
+        match s.rng.below(16) {
+            0..=5 if s.created < 60 => {
+                let v = s.val();
+                if s.sorted_insert(i, v) {
+                    st.bump("op_sorted_insert_via_split_by");
+                } else {
+                    s.p_item(v);
+                    st.bump("op_from_item");
+                }
+            }
+            6 | 7 => {
+                if live < 6 && s.sorted_splitby(i) {
+                    st.bump("op_split_by_sorted_interior");
+                }
+            }
+            8 if live < 5 && n > 0 => {
+                if s.mono_splitby(i) {
+                    st.bump("op_split_by");
+                }
+            }
+            9 if live >= 2 => {
+                let mut j = s.rng.below(live as u64 - 1) as usize;
+                if j >= i {
+                    j += 1;
+                }
+                s.p_merge(i, j);
+                st.bump("op_merge");
+            }
+            10 => {
+                s.p_obs("first", i);
+                s.p_obs("last", i);
+                st.bump("op_first_last");
+            }
+            11 => {
+                s.p_obs("collect", i);
+                s.p_obs("size", i);
+                st.bump("op_collect");
+            }
+            12 if live < 6 => {
+                let w = s.rng.below(3);
+                let j = (0..live).find(|&j| s.seqs[j].len() == 1).unwrap_or(i);
+                s.p_dup(j, w);
+                st.bump("op_dup_clone");
+            }
+            13 if live >= 2 => {
+                let mut j = s.rng.below(live as u64 - 1) as usize;
+                if j >= i {
+                    j += 1;
+                }
+                s.p_collect2(i, j);
+                st.bump("op_collect_into_two");
+            }
+            14 if live >= 4 => {
+                s.p_drop(i);
+                st.bump("op_drop");
+            }
+            15 if live < 5 => {
+                s.p_new();
+                st.bump("op_new_empty");
+            }
+            _ => {}
+        }
+    }
+    for i in 0..s.seqs.len() {
+        s.p_obs("collect", i);
+        s.p_obs("size", i);
+    }
+    st.bump(&format!("histories_key_{}", if own { "own" } else { "ctl" }));
+    st.add("split_by_interior", s.splitby_interior as u64);
+    st.add("split_by_all_left_or_all_right", s.splitby_trivial as u64);
+    s.line(focus, pm)
+}
+
+fn key_batch(focus: &str, n_ctl: usize, n_own: usize, rng: &mut SplitMix64, emit: &mut dyn FnMut(String), st: &mut Stats) {
+    for _ in 0..n_ctl {
+        emit(key_history(focus, false, rng, st));
+    }
+    for _ in 0..n_own {
+        emit(key_history(focus, true, rng, st));
+    }
 }
 
 /// a batch of random histories: `n` small ones plus shares that grow to medium / large treaps
@@ -705,23 +1057,31 @@ pub fn gen(args: &Args, emit: &mut dyn FnMut(String), st: &mut Stats) {
     if focus == "C03" {
         if thorough {
             exhaustive("C03", 5, 5, emit, st, &mut rng);
+            exhaustive_extreme("C03", 4, emit, st, &mut rng);
             random_batch("C03", false, 90_000, 12_000, 3_000, &mut rng, emit, st);
             random_batch("C03", true, 22_000, 4_000, 1_000, &mut rng, emit, st);
+            key_batch("C03", 8_000, 2_000, &mut rng, emit, st);
         } else {
             exhaustive("C03", 4, 5, emit, st, &mut rng);
+            exhaustive_extreme("C03", 3, emit, st, &mut rng);
             random_batch("C03", false, 2_000, 300, 100, &mut rng, emit, st);
             random_batch("C03", true, 500, 80, 20, &mut rng, emit, st);
+            key_batch("C03", 300, 100, &mut rng, emit, st);
         }
     } else {
         // controlled priorities: heap order after every operation, shape at the end
         if thorough {
             exhaustive("C16", 4, 5, emit, st, &mut rng);
+            exhaustive_extreme("C16", 4, emit, st, &mut rng);
             random_batch("C16", false, 20_000, 3_000, 1_000, &mut rng, emit, st);
             random_batch("C16", true, 2_500, 400, 100, &mut rng, emit, st);
+            key_batch("C16", 2_000, 500, &mut rng, emit, st);
         } else {
             exhaustive("C16", 3, 4, emit, st, &mut rng);
+            exhaustive_extreme("C16", 3, emit, st, &mut rng);
             random_batch("C16", false, 600, 150, 50, &mut rng, emit, st);
             random_batch("C16", true, 120, 25, 5, &mut rng, emit, st);
+            key_batch("C16", 100, 30, &mut rng, emit, st);
         }
         // rlib's own priorities, explicit operations
         let (reps, size) = if thorough { (6, 1500) } else { (1, 300) };
